@@ -1,6 +1,7 @@
 package client
 
 import (
+	"bytes"
 	"context"
 	"crypto/subtle"
 	"log/slog"
@@ -100,7 +101,8 @@ func compareIPs(x, y []byte) int {
 	addrX, okX := netip.AddrFromSlice(x)
 	addrY, okY := netip.AddrFromSlice(y)
 	if !okX || !okY {
-		panic("unexpected IP address byte slice")
+		// not an IP address (e.g., another SCION host address type): never equal
+		return bytes.Compare(x, y) | 1
 	}
 	return addrX.Unmap().Compare(addrY.Unmap())
 }
@@ -452,12 +454,23 @@ func (c *SCIONClient) measureClockOffsetSCION(ctx context.Context, mtrcs *scionC
 			tsOpt, err := e2eLayer.FindOption(scion.OptTypeTimestamp)
 			if err == nil {
 				cRxTime0, err := udp.TimestampFromOOBData(tsOpt.OptData)
-				if err == nil {
+				if err == nil && !cRxTime0.Before(cTxTime1) && !cRxTime0.After(cRxTime) {
+					// rx timestamp taken by the local dispatcher: only plausible
+					// between the request's transmission and the local reception
 					cRxTime = cRxTime0
 				}
 			}
 			if authKey != nil {
 				authOpt, err := e2eLayer.FindOption(slayers.OptTypeAuthenticator)
+				if err == nil && len(authOpt.OptData) != scion.PacketAuthOptDataLen {
+					err = errInvalidPacketAuthenticator
+					if numRetries != maxNumRetries && deadlineIsSet && timebase.Now().Before(deadline) {
+						c.Log.LogAttrs(ctx, slog.LevelInfo, "failed to authenticate packet", slog.Any("error", err))
+						numRetries++
+						continue
+					}
+					return time.Time{}, 0, err
+				}
 				if err == nil {
 					spi, algo := scion.PacketAuthOptMetadata(authOpt)
 					if spi == scion.PacketAuthSPIServer && algo == scion.PacketAuthAlgorithm {
